@@ -584,6 +584,60 @@ func c15Servers(c *Ctx) {
 		}
 		os.RemoveAll(dc)
 	}
+	c15BitFlips(c, work)
+}
+
+// c15BitFlips: single-bit damage anywhere in a metadata file (a small VoD tree, many positions): the file is either
+// rejected — the segments are read instead — or gives the scanned tables; the server never dies at start-up.
+func c15BitFlips(c *Ctx, work string) {
+	r := c.Rng
+	vod := filepath.Join(work, "vod-small")
+	must(copyTree(filepath.Join(bundledRoot(), "testpic_2s"), filepath.Join(vod, "testpic_2s")))
+	scan := startServer(vod, "", false)
+	if scan.err != nil {
+		return
+	}
+	cache := filepath.Join(work, "repdata-small")
+	if w := startServer(vod, cache, true); w.err != nil {
+		return
+	}
+	var files []string
+	_ = filepath.Walk(cache, func(p string, info os.FileInfo, err error) error {
+		if err == nil && !info.IsDir() && strings.HasSuffix(p, ".gz") {
+			files = append(files, p)
+		}
+		return nil
+	})
+	sort.Strings(files)
+	if len(files) == 0 {
+		return
+	}
+	want := mustJSON(scan.assets)
+	for i := 0; i < c.N(40, 400); i++ {
+		f := files[r.Intn(len(files))]
+		orig, err := os.ReadFile(f)
+		if err != nil || len(orig) == 0 {
+			continue
+		}
+		bit := r.Intn(len(orig) * 8)
+		dmg := append([]byte(nil), orig...)
+		dmg[bit/8] ^= 1 << uint(bit%8)
+		_ = os.WriteFile(f, dmg, 0o644)
+		inst := startServer(vod, cache, false)
+		_ = os.WriteFile(f, orig, 0o644)
+		c.Count("bit-flip-starts")
+		rel, _ := filepath.Rel(cache, f)
+		tag := fmt.Sprintf("# start from metadata with bit %d of %s flipped", bit, rel)
+		switch {
+		case inst.err != nil:
+			c.Violate("start", "server does not start: "+inst.err.Error(), []string{tag}, nil)
+			return
+		case !bytes.Equal(mustJSON(inst.assets), want):
+			c.Violate("table-differs", "a metadata file with one flipped bit is accepted and gives tables that differ from the scanned ones", []string{tag},
+				map[string]any{"scan": scan.assets, "got": inst.assets})
+			return
+		}
+	}
 }
 
 func getBody(s *app.Server, url string) []byte {
